@@ -162,6 +162,16 @@ CHECKS.update({
    tech="translator (ast+symtable) regenerating a finite link table decided by Lean's kernel (decide +kernel) + observational layout/purity harness",
    ref="DESIGN.md §3 C20"),
 })
+CHECKS.update({
+ 'C03': dict(
+   text="Lean theorems over Q for EVERY exact two-slope elbow (structure IsElbow: any strictly increasing x, any distinct rational slopes, any offset, arms >= 3 segments - more general than the property): "
+        "elbow_curvature, elbow_menger, elbow_lmethod_scan, elbow_lmethod_none, elbow_dfdt (with a full model of ISODATA: isodata_between - the corner gradient is strictly closer to the threshold than either slope, "
+        "dfdt_elbow incl. the tail refinement), plus the Kneedle results listed in Props/C03.lean. Tie: all five real detectors with every Fit x Cost x Refinement x limit return the corner on sampled elbows (arms to 1500), "
+        "the oracle-fed and the exact-Q detector models agree, cfdQ/csdQ vs uts.gradient under tolerance.",
+   note=TB + " Partial: best-fit (np.polyfit) L-method, adjusted/original refinement on elbows and any Kneedle orientation not proved in Props/C03.lean are covered by the sampled correspondence only.",
+   tech="Lean 4 proof (exact criteria over Q: three-point derivatives, Menger curvature, RSS of end-point lines, ISODATA iteration invariant) + differential correspondence on exact elbows",
+   ref="DESIGN.md §3 C03"),
+})
 NA = {}
 props = [json.loads(l) for l in open(os.path.join(V, 'properties.jsonl'))]
 checks = []
